@@ -13,7 +13,7 @@ import (
 func init() {
 	register(&Rule{Name: "SCHEMA-TAGS", Floor: 60, Run: ruleSchemaTags,
 		Doc: "every property a JSON schema admits (certificate.json, profile.json and everything they reference) has a like-named json field of the matching kind in the Go struct that document is unmarshalled into, so no accepted configuration value is silently dropped"})
-	register(&Rule{Name: "SCHEMA-ENUM", Floor: 8, Run: ruleSchemaEnum,
+	register(&Rule{Name: "SCHEMA-ENUM", Floor: 4, Run: ruleSchemaEnum,
 		Doc: "every value a schema enum admits for a general-name type or RDN attribute either has a table entry / case, or takes a path that returns an error"})
 	register(&Rule{Name: "HASH-SHAPE", Floor: 40, Run: ruleHashShape,
 		Doc: "every field reachable from the hashed configuration value is visible to encoding/json (exported, not json:\"-\", marshalable kind), and no two extension kinds admit an identical JSON encoding"})
